@@ -1,6 +1,8 @@
 import RbModel.Map
+import RbModel.FeatureGsub
 import RbModel.Gen.Map
 import RbModel.Drv.Util
+import RbModel.Drv.Gsub
 
 namespace RbModel.Drv.Map
 open RbModel.Drv RbModel.Map
@@ -81,7 +83,7 @@ def words (xs : List String) : String := "".intercalate (xs.map (" " ++ ·))
 def dumpMap (m : RbModel.Map.Map) : String :=
   s!"g={m.globalMask} F{words (m.features.map dumpFMap)} ; L0{words (m.lookups0.map dumpLMap)} S0{words (m.stages0.map toString)} ; L1{words (m.lookups1.map dumpLMap)} S1{words (m.stages1.map toString)}"
 
-def dumpInfo (i : Info) : String :=
+def dumpInfo (i : RbModel.Map.Info) : String :=
   s!"{i.tag}:{i.seq}:{i.maxValue}:{i.flags}:{i.defaultValue}:{i.stage0}:{i.stage1}"
 
 def applyOp (b : Builder) (t : String) : Option Builder :=
@@ -174,11 +176,19 @@ def handle (ts : List String) : Option String :=
       match segments rest with
       | [[_], facts, lks, feats, text] => do
           let facts ← parseFacts facts
-          let lks ← lks.mapM parseLookup
           let user ← feats.mapM parseFeat
           let text ← text.mapM (fun t => match colon t with
             | [_, g, c] => do let g ← g.toNat?; let c ← c.toNat?; pure (g, c)
             | _ => none)
+          -- `G <numbers>`: the whole GSUB / GDEF of the font (tools/gsubgen.py::flatten): plan and masks from Map.lean,
+          -- lookups by the interpreter model Gsub.lean (all lookup types, both drivers)
+          if lks.head? == some "G" then do
+            let fnums ← (lks.drop 1).mapM String.toNat?
+            let (gf, _) ← RbModel.Drv.Gsub.font fnums
+            match RbModel.FeatureGsub.shapeGsub cfg facts.font gf user text with
+            | .error e => return s!"panic {RbModel.Drv.Buffer.panicName e}"
+            | .ok out => return (s!"ok {out.length}" ++ words (out.map (fun g => s!"{g.gid}:{g.cluster}")))
+          let lks ← lks.mapM parseLookup
           let out := shapeFeatures cfg facts.font (fun i => (lks.find? (·.1 == i)).map (·.2)) user text
           pure (s!"ok {out.length}" ++ words (out.map (fun g => s!"{g.gid}:{g.cluster}")))
       | _ => none
